@@ -6,7 +6,7 @@
    every order.  Texts are sequences of one-character strings.            *)
 EXTENDS Integers, Sequences, FiniteSets, TLC, Json, SequencesExt
 
-CONSTANTS MaxCore, PairSeps   \* PairSeps: how many of the separators are used between the elements of a pair from the full pool
+CONSTANTS MaxCore, PairSeps, LongStarts   \* PairSeps: how many of the separators are used between the elements of a pair from the full pool
 
 ValidEl == <<
   <<"\"", "a", "\\", "\"", "\"">>,
@@ -128,15 +128,25 @@ NSep == Len(Seps)
 \*   <<"one",  i, s>>                   El[i] Seps[s]
 \*   <<"pair", i, s, j, t>>             El[i] Seps[s] El[j] Seps[t]           s, t among the first PairSeps separators
 \*   <<"core", n, i1, s1, i2, s2, i3, s3>>   n <= MaxCore elements of CoreEl; all separators for n <= 2, the first two for n = 3
+\*   <<"long", i, k, n>>                k blanks, then valid elements (cyclically from the i-th on) separated by a blank, every
+\*                                      eighth by a new line, until the text has n characters, then the identifier end: texts
+\*                                      longer than the block sizes of readers (4096, 8192), in every alignment k
 \*   <<"lead", l, c>>                   LeadSeq[l] followed by a "one" text or a "core" text of 2 elements over the first two separators
 LeadSeq == << <<" ">>, <<"\n">>, <<"\t">>, <<"\r">>, <<"\n", "\n", " ", " ">>, <<"\f">> >>
 RECURSIVE CoreText(_, _)
 CoreText(c, k) == IF k > c[2] THEN <<>> ELSE CoreEl[c[2 * k + 1]] \o Seps[c[2 * k + 2]] \o CoreText(c, k + 1)
+NV == Len(ValidEl)
+LongText(i, k, n) ==
+  LET RECURSIVE Build(_, _)
+      Build(j, acc) == IF Len(acc) >= n THEN acc
+                       ELSE Build(j + 1, acc \o ValidEl[1 + ((i + j) % NV)] \o (IF j % 8 = 7 THEN <<"\n">> ELSE <<" ">>))
+  IN [x \in 1..k |-> " "] \o Build(0, <<>>) \o <<"e", "n", "d">>
 RECURSIVE Text(_)
 Text(c) == CASE c[1] = "one"  -> El[c[2]] \o Seps[c[3]]
              [] c[1] = "pair" -> El[c[2]] \o Seps[c[3]] \o El[c[4]] \o Seps[c[5]]
              [] c[1] = "core" -> CoreText(c, 1)
              [] c[1] = "lead" -> LeadSeq[c[2]] \o Text(c[3])
+             [] c[1] = "long" -> LongText(c[2], c[3], c[4])
 
 VARIABLES lvl, c
 vars == <<lvl, c>>
@@ -146,6 +156,7 @@ SepsFor(n) == IF n = 3 THEN 1..2 ELSE 1..NSep
 First == { <<"one", i>> : i \in 1..NEl } \cup { <<"pair", i>> : i \in 1..NEl }
          \cup { <<"core", n, i>> : n \in 1..MaxCore, i \in 1..NCore } \cup { <<"core", 0, 0>> }
          \cup { <<"lead", l>> : l \in 1..Len(LeadSeq) }
+         \cup { <<"long", i>> : i \in 1..LongStarts }
 Rest(f) ==
   CASE f[1] = "one"  -> { <<"one", f[2], s>> : s \in 1..NSep }
     [] f[1] = "pair" -> { <<"pair", f[2], s, j, t>> : s \in 1..PairSeps, j \in 1..NEl, t \in 1..PairSeps }
@@ -154,6 +165,7 @@ Rest(f) ==
             [] f[2] = 1 -> { <<"core", 1, f[3], s>> : s \in 1..NSep }
             [] f[2] = 2 -> { <<"core", 2, f[3], s, j, t>> : s \in 1..NSep, j \in 1..NCore, t \in 1..NSep }
             [] f[2] = 3 -> { <<"core", 3, f[3], s, j, t, k, u>> : s \in 1..2, j \in 1..NCore, t \in 1..2, k \in 1..NCore, u \in 1..2 })
+    [] f[1] = "long" -> { <<"long", f[2] * 5, k, n>> : k \in 0..3, n \in {4090, 8185} }
     [] f[1] = "lead" -> { <<"lead", f[2], <<"one", i, s>> >> : i \in 1..NEl, s \in 1..NSep }
                         \cup { <<"lead", f[2], <<"core", 2, i, s, j, t>> >> : i \in 1..NCore, s \in 1..2, j \in 1..NCore, t \in 1..2 }
 Next == \/ lvl = 0 /\ lvl' = 1 /\ c' \in First
